@@ -165,14 +165,14 @@ Definition resolve_named_p (rs : inline -> scope -> proc (fvalue * scope))
         PRet (Done ((name, v) :: vs, sc))
     end.
 
-Fixpoint pattern_write_p (fuel : nat) (p : pattern) (sc : scope) {struct fuel} : proc (list otoken * scope) :=
+Fixpoint pattern_write_p (fuel : nat) (k : option pkey) (p : pattern) (sc : scope) {struct fuel} : proc (list otoken * scope) :=
   (* pattern.rs Pattern::write *)
   match fuel with
   | O => PRet OutOfFuel
-  | S f => pattern_loop_p (maybe_track_p f p) (length (pattern_elements p)) (pattern_elements p) sc
+  | S f => pattern_loop_p (maybe_track_p f k p) (length (pattern_elements p)) (pattern_elements p) sc
   end
 
-with pattern_resolve_p (fuel : nat) (p : pattern) (sc : scope) {struct fuel} : proc (fvalue * scope) :=
+with pattern_resolve_p (fuel : nat) (k : option pkey) (p : pattern) (sc : scope) {struct fuel} : proc (fvalue * scope) :=
   (* pattern.rs Pattern::resolve *)
   match fuel with
   | O => PRet OutOfFuel
@@ -180,7 +180,7 @@ with pattern_resolve_p (fuel : nat) (p : pattern) (sc : scope) {struct fuel} : p
       match pattern_elements p with
       | [TextElement value] => PRet (Done (VString (apply_transform transform value), sc))
       | _ =>
-          let+ (o, sc) := pattern_write_p f p sc in
+          let+ (o, sc) := pattern_write_p f k p sc in
           PRet (Done (VString (flatten o), sc))
       end
   end
@@ -200,10 +200,10 @@ with expression_write_p (fuel : nat) (e : expression) (sc : scope) {struct fuel}
             | _ => PRet (Done (None, sc))
             end in
           match hit with
-          | Some value => pattern_write_p f value sc
+          | Some value => pattern_write_p f None value sc
           | None =>
               match find_default variants with
-              | Some value => pattern_write_p f value sc
+              | Some value => pattern_write_p f None value sc
               | None => PRet (Done ([], add_error sc MissingDefault))
               end
           end
@@ -223,12 +223,12 @@ with inline_write_p (fuel : nat) (i : inline) (sc : scope) {struct fuel} : proc 
               match attribute with
               | Some attr =>
                   match find_attribute attributes attr with
-                  | Some v => track_p f v i sc
+                  | Some v => track_p f (PKey false id (Some attr)) v i sc
                   | None => plift (write_ref_error i sc)
                   end
               | None =>
                   match value with
-                  | Some v => track_p f v i sc
+                  | Some v => track_p f (PKey false id None) v i sc
                   | None => PRet (Done (braced (inline_write_error i), add_error sc (NoValue id)))
                   end
               end
@@ -246,10 +246,10 @@ with inline_write_p (fuel : nat) (i : inline) (sc : scope) {struct fuel} : proc 
                 match attribute with
                 | Some attr =>
                     match find_attribute attributes attr with
-                    | Some v => track_p f v i sc
+                    | Some v => track_p f (PKey true id (Some attr)) v i sc
                     | None => plift (write_ref_error i sc)
                     end
-                | None => track_p f value i sc
+                | None => track_p f (PKey true id None) value i sc
                 end
             | None => plift (write_ref_error i sc)
             end in
@@ -331,27 +331,27 @@ with inline_resolve_p (fuel : nat) (i : inline) (sc : scope) {struct fuel} : pro
       end
   end
 
-with maybe_track_p (fuel : nat) (p : pattern) (e : expression) (sc : scope) {struct fuel} : proc (list otoken * scope) :=
+with maybe_track_p (fuel : nat) (k : option pkey) (p : pattern) (e : expression) (sc : scope) {struct fuel} : proc (list otoken * scope) :=
   (* scope.rs Scope::maybe_track *)
   match fuel with
   | O => PRet OutOfFuel
   | S f =>
-      let sc := match sc_travelled sc with [] => set_travelled sc [p] | _ => sc end in
+      let sc := match sc_travelled sc with [] => set_travelled sc [k] | _ => sc end in
       let+ (o, sc) := expression_write_p f e sc in
       if sc_dirty sc then PRet (Done (o ++ braced (expression_write_error e), sc))
       else PRet (Done (o, sc))
   end
 
-with track_p (fuel : nat) (p : pattern) (exp : inline) (sc : scope) {struct fuel} : proc (list otoken * scope) :=
+with track_p (fuel : nat) (k : pkey) (p : pattern) (exp : inline) (sc : scope) {struct fuel} : proc (list otoken * scope) :=
   (* scope.rs Scope::track *)
   match fuel with
   | O => PRet OutOfFuel
   | S f =>
-      if pattern_mem p (sc_travelled sc)
+      if key_mem k (sc_travelled sc)
       then PRet (Done (braced (inline_write_error exp), add_error sc Cyclic))
       else
-        let sc := set_travelled sc (p :: sc_travelled sc) in
-        let+ (o, sc) := pattern_write_p f p sc in
+        let sc := set_travelled sc (Some k :: sc_travelled sc) in
+        let+ (o, sc) := pattern_write_p f (Some k) p sc in
         PRet (Done (o, set_travelled sc (tl (sc_travelled sc))))
   end
 
@@ -373,8 +373,8 @@ with get_arguments_p (fuel : nat) (arguments : option call_args) (sc : scope) {s
 
 (* bundle.rs FluentBundle::format_pattern, as a process.  The Scope starts without a memoizer of its
    own (`sc_intls` stays [] throughout: the memoizer is the bundle's, reached through PAsk). *)
-Definition format_pattern_p (fuel : nat) (pattern : pattern) : proc (bytes * scope) :=
-  let+ (value, sc) := pattern_resolve_p (S fuel) pattern (scope_new []) in
+Definition format_pattern_p (fuel : nat) (top : option pkey) (pattern : pattern) : proc (bytes * scope) :=
+  let+ (value, sc) := pattern_resolve_p (S fuel) top pattern (scope_new []) in
   (* match pattern.resolve(..) { FluentValue::String(text) => text, value => value.into_string(&scope) } *)
   PRet (Done (match value with VString text => text | _ => value_into_string formatter stringify_value value end, sc)).
 
@@ -391,8 +391,10 @@ Definition args_of (ty : ntype) : Memoizer.args :=
 Definition ntype_of_args (a : Memoizer.args) : ntype :=
   match a with [1] => Ordinal | _ => Cardinal end.
 
-(* a format_pattern request: the pattern (obtained from the shared bundle with get_message) and the caller's arguments *)
-Record frequest := FReq { fr_args : option fargs; fr_pattern : pattern }.
+(* a format_pattern request: the pattern (obtained from the shared bundle with get_message: `fr_top` is its identity as a
+   pattern object of the bundle, see ResolverModel.v pkey; None for a pattern that is not one of the bundle's) and the caller's
+   arguments *)
+Record frequest := FReq { fr_args : option fargs; fr_top : option pkey; fr_pattern : pattern }.
 
 Section Threads.
 Variable overflow_checks : bool.
@@ -454,7 +456,7 @@ Definition memo_step (m : bmemo) (ty : ntype) (num : fnumber) (cat : pcat) : bme
 Definition request_proc (rq : frequest) : proc (bytes * scope) :=
   format_pattern_p overflow_checks call_function transform formatter as_string as_string_threadsafe
     unescape_write unescape_to_string f64_from_str Concurrent b (fr_args rq)
-    (fuel_of b (fr_pattern rq)) (fr_pattern rq).
+    (fuel_of b (fr_pattern rq)) (fr_top rq) (fr_pattern rq).
 
 (* a thread: the call in progress (its private continuation), the requests still to issue, and what the
    finished calls returned, oldest first *)
